@@ -210,8 +210,31 @@ def enabled_lists(chk, P):
              "setForceIsDisabled writes the flag through the Instance-stage variable")
     for fname in (REP + "::realizeSubsystemInstanceImpl", REP + "::realizeSubsystemTopologyImpl"):
         fn = P.fn(fname)
-        pushes = [(b, i, e) for b, i, e in fn.calls() if e.get("fn", "").endswith("::push_back") and (var_of(call_obj(e)) or "").startswith("enabled")]
-        chk.judge(len(pushes) == 2, "REACHDEF", "%s:two-push-sites" % fname.split("::")[-1], fn.loc, "parallel and non-parallel push sites (found %d)" % len(pushes))
+        # roles of the locals, never their names: the enabled lists are the Array_<ForceIndex> locals tied (by their initialiser or by the
+        # allocateCacheEntry that stores them) to the enabledParallelForcesIndex / enabledNonParallelForcesIndex members; the flag array is
+        # the Array_<bool> local
+        ldecl = {d["var"]: d for _, _, d in fn.events(lambda d: d["k"] == "decl")}
+        lists = {}
+        for v, d in ldecl.items():
+            if "ForceIndex" not in str(d.get("ty", "")) or "Array_" not in str(d.get("ty", "")):
+                continue
+            tied = set()
+            for _, _, e in fn.events():
+                for x in (e.get("x"), e.get("init") if e.get("var") == v else None, e.get("rhs")):
+                    if x is None:
+                        continue
+                    if (e.get("var") == v or sx_find(x, lambda y: y[0] == "var" and y[1] == v)):
+                        for y in sx_find(x, lambda y: y[0] == "mem" and re.search(r"::enabled(Non)?ParallelForcesIndex$", y[2])):
+                            tied.add(y[2].split("::")[-1][:-len("Index")])
+                if e["k"] in ("assign",) and e.get("rhs") is not None and sx_find(e["rhs"], lambda y: y[0] == "var" and y[1] == v):
+                    for y in sx_find(e["lhs"], lambda y: y[0] == "mem" and re.search(r"::enabled(Non)?ParallelForcesIndex$", y[2])):
+                        tied.add(y[2].split("::")[-1][:-len("Index")])
+            if len(tied) == 1:
+                lists[v] = next(iter(tied))
+        flags = {v for v, d in ldecl.items() if re.search(r"Array_<bool", str(d.get("ty", "")))}
+        pushes = [(b, i, e) for b, i, e in fn.calls() if e.get("fn", "").endswith("::push_back") and var_of(call_obj(e)) in lists]
+        chk.judge(len(pushes) == 2 and sorted(lists.values()) == ["enabledNonParallelForces", "enabledParallelForces"], "REACHDEF", "%s:two-push-sites" % fname.split("::")[-1], fn.loc,
+                  "parallel and non-parallel push sites (found %d; lists %s)" % (len(pushes), sorted(lists.values())))
         for b, i, e in pushes:
             a = call_args(e)
             iv = var_of(a[0]) if a else None
@@ -221,22 +244,23 @@ def enabled_lists(chk, P):
             def cond(c, iv=iv, fn=fn):
                 if c[0] in ("opc", "idx") and index_var(c) == iv:
                     v = var_of(c)
-                    if v == "forceEnabled" or v == "enabled":
+                    if v in flags:
                         return True
                 return False
             region = set()
             for g in guard_blocks(fn, cond, 0):
                 dom = fn.dominators()
                 region |= {x for x in dom if g in dom[x]}
-            chk.judge(b in region, "REACHDEF", "%s:%s.push_back" % (fname.split("::")[-1], var_of(call_obj(e))), "%s:%d" % (fn.file, e["line"]),
+            chk.judge(b in region, "REACHDEF", "%s:%s.push_back" % (fname.split("::")[-1], lists.get(var_of(call_obj(e)))), "%s:%d" % (fn.file, e["line"]),
                       "force %s is put on an enabled list only under forceEnabled[%s]" % (iv, iv))
         if fname.endswith("InstanceImpl"):
             # the lists are cleared first
             for lst in ("enabledParallelForces", "enabledNonParallelForces"):
-                rs = [(b, i, e) for b, i, e in fn.calls() if e.get("fn", "").endswith(("::resize", "::clear")) and var_of(call_obj(e)) == lst]
+                lv = [v for v, r in lists.items() if r == lst]
+                rs = [(b, i, e) for b, i, e in fn.calls() if e.get("fn", "").endswith(("::resize", "::clear")) and var_of(call_obj(e)) in lv]
                 ok = bool(rs)
                 for pb, pi, pe in pushes:
-                    if var_of(call_obj(pe)) == lst and rs:
+                    if var_of(call_obj(pe)) in lv and rs:
                         ok = ok and fn.path_exists(None, lambda q, pe=pe: q is pe, lambda q, rs=rs: q is rs[0][2]) is None
                 chk.judge(ok, "REACHDEF", "realizeInstance:%s-cleared-first" % lst, fn.loc, "list is emptied before being rebuilt")
     # the tasks iterate only the enabled lists
